@@ -1062,3 +1062,9 @@ T('C05', 'twin-split-string-path-enumerates', DEC, "    for i in range(len(path)
 M('C17', 'failed-clean-filter-remembered', 'nbdime/vcs/git/filter_integration.py', "def apply_possible_filter(", "_failed = set()\n\n\ndef _note_failed(cmd):\n    _failed.add(cmd)\n\n\ndef apply_possible_filter(", 'R17.19',
   edits=[('nbdime/vcs/git/filter_integration.py', "    filter_cmd = get_clean_filter_cmd(filter_attr)\n", "    filter_cmd = get_clean_filter_cmd(filter_attr)\n    _note_failed(filter_cmd)\n")])
 M('C06', 'merged-cells-normalised-after-the-decisions', DEC, "    merged = nbformat.from_dict(merged)\n    return merged\n", "    if isinstance(merged, dict) and merged.get('nbformat_minor', 0) < 5:\n        for c in merged.get('cells', []):\n            c.pop('id', None)\n    merged = nbformat.from_dict(merged)\n    return merged\n", 'R06.3')
+TSSTR = 'packages/nbdime/src/patch/stringified.ts'
+TSCOM = 'packages/nbdime/src/patch/common.ts'
+M('C15', 'ts-stringified-key-written-raw', TSSTR, "  return repeatString(JSON_INDENT, level) + JSON.stringify(key) + ': ';", "  return repeatString(JSON_INDENT, level) + '\"' + key + '\": ';", 'R15.15')
+T('C15', 'twin-ts-stringified-key-through-a-local', TSSTR, "  return repeatString(JSON_INDENT, level) + JSON.stringify(key) + ': ';", "  const quoted = JSON.stringify(key);\n  return repeatString(JSON_INDENT, level) + quoted + ': ';")
+M('C15', 'ts-object-iterator-stops-on-falsy-key', TSCOM, "    if (key === undefined) {\n      return {\n        done: true,", "    if (!key) {\n      return {\n        done: true,", 'R15.16')
+T('C15', 'twin-ts-object-iterator-compares-reversed', TSCOM, "    if (key === undefined) {\n      return {\n        done: true,", "    if (undefined === key) {\n      return {\n        done: true,")
